@@ -1,5 +1,6 @@
 (* Pinned statements for C16: a changed statement or a new axiom fails the check. *)
 From SwimV Require Import Model.MsgPack Proofs.MsgPackProofs Proofs.MsgPackRecordProofs Proofs.MsgPackTruncProofs Props.C16.
+From SwimV Require Model.FormInt Proofs.FormIntProofs.
 Open Scope N_scope.
 Check (C16_scalar_roundtrip) : (forall v rest, wf v -> dec_scalar (enc_scalar v ++ rest) = MOk v rest).
 Print Assumptions C16_scalar_roundtrip.
@@ -15,3 +16,15 @@ Check (C16_record_truncated_is_incomplete) : (forall v, WFV v -> forall fuel p q
 Print Assumptions C16_record_truncated_is_incomplete.
 Check (C16_record_encoding_prefix_free) : (forall a b q, WFV a -> WFV b -> enc a ++ q = enc b -> q = []).
 Print Assumptions C16_record_encoding_prefix_free.
+Check (C16_integer_recognized_by_number) : (forall t v, ReconNum.well_kinded v = true -> FormInt.recognize t v = FormIntProofs.by_number t (ReconNum.nz v)).
+Print Assumptions C16_integer_recognized_by_number.
+Check (C16_integer_model_roundtrip) : (forall t z, FormInt.in_ty t z = true -> FormInt.try_from_value t (FormInt.to_value t z) = Some z).
+Print Assumptions C16_integer_model_roundtrip.
+Check (C16_integer_reading_paths_agree) : (forall t inp, FormInt.read_direct t inp = FormInt.read_via_model t inp).
+Print Assumptions C16_integer_reading_paths_agree.
+Check (C16_integer_printed_reads_back) : (forall t z, FormInt.in_ty t z = true -> FormInt.read_direct t (ReconNum.print_int z) = Some z /\ FormInt.read_via_model t (ReconNum.print_int z) = Some z).
+Print Assumptions C16_integer_printed_reads_back.
+Check (C16_integer_msgpack_roundtrip) : (forall t z, FormIntProofs.fixed_width t = true -> FormInt.in_ty t z = true -> FormInt.read_msgpack t (FormInt.write_msgpack t z) = Some z).
+Print Assumptions C16_integer_msgpack_roundtrip.
+Check (C16_integer_msgpack_across_types) : (forall t u z, FormIntProofs.fixed_width t = true -> FormInt.in_ty t z = true -> FormInt.read_msgpack u (FormInt.write_msgpack t z) = FormIntProofs.by_number u z).
+Print Assumptions C16_integer_msgpack_across_types.
